@@ -88,10 +88,16 @@ def get(flavour="hook", repo=REPO):
     fcntl.flock(lock, fcntl.LOCK_EX)
     try:
         d = os.path.join(CACHE, "build-%s-%s" % (flavour, h))
-        # remove stale builds of this flavour (at most one per flavour is kept)
-        for old in glob.glob(os.path.join(CACHE, "build-%s-*" % flavour)):
-            if old != d and not old.startswith(d):
-                shutil.rmtree(old, ignore_errors=True)
+        # remove stale builds of this flavour: keep the few most recently used ones (several working trees may
+        # be checked concurrently through VERIF_REPO), delete the rest
+        olds = [o for o in glob.glob(os.path.join(CACHE, "build-%s-*" % flavour))
+                if o != d and not o.endswith(".tmp")]
+        olds.sort(key=lambda o: os.path.getmtime(o), reverse=True)
+        keep = int(os.environ.get("VERIF_CACHE_KEEP", "5"))
+        for old in olds[keep:]:
+            shutil.rmtree(old, ignore_errors=True)
+        if os.path.isdir(d):
+            os.utime(d, None)
         marker = os.path.join(d, ".verif-fallback")
         if os.path.isdir(d) and all(os.path.exists(os.path.join(d, t)) for t in TOOLS):
             return Build(d, flavour, not os.path.exists(marker))
